@@ -1879,7 +1879,21 @@ def rf162(run):
         raise F.AnalysisBroken('MIR_new_string_data: the MIR_new_data call was not found')
     a = F.call_args(calls[0])
     nel = F.strip(a[3])
-    ok = nel['k'] == 'MemberExpr' and nel['n'] == 'len' and 'MIR_str' in (getattr(tu.type(nel['c'][0]), 's', '') or '')
+    # a local with one definition stands for its defining expression
+    if nel['k'] == 'DeclRefExpr' and nel.get('dk') == 'local':
+        defs = [d['init'] for x in g.walk() if x['k'] == 'DeclStmt' for d in x.get('decls', []) if d['n'] == nel['n'] and d.get('init') is not None]
+        defs += [x['c'][1] for x in g.walk() if x['k'] == 'BinaryOperator' and x['op'] == '=' and F.src(F.strip(x['c'][0])) == nel['n']]
+        if len(defs) == 1:
+            nel = F.strip(defs[0])
+    uses_len = any(y['k'] == 'MemberExpr' and y['n'] == 'len' and 'MIR_str' in (getattr(tu.type(y['c'][0]), 's', '') or '') for y in F.walk(nel))
+    measures = any(y['k'] == 'CallExpr' and y.get('callee') in CSTR for y in F.walk(nel))
+    plain = nel['k'] == 'MemberExpr' and nel['n'] == 'len'
+    if not plain and not measures and not (uses_len and nel['k'] == 'ConditionalOperator'):
+        if not uses_len:
+            raise F.AnalysisBroken('MIR_new_string_data: the number of elements `%s` is not recognised' % F.src(nel)[:60])
+    ok = plain
+    if not plain and uses_len and not measures and nel['k'] != 'ConditionalOperator':
+        raise F.AnalysisBroken('MIR_new_string_data: the number of elements `%s` is computed from the length in a way the rule cannot judge' % F.src(nel)[:60])
     run.ob(rule, ('nel',), ok, {'number of elements passed by MIR_new_string_data': F.src(nel)[:60]})
     if not ok:
         run.violation(rule, g, 'length of string data', 'MIR_new_string_data passes `%s` as the number of elements instead of the length of the '
